@@ -1,6 +1,12 @@
 import AioslskVerif.Model.XferTasks
 /-!
 Invariant of the task model (C06) and its preservation by every op.
+
+Besides single flight the invariant says what may still be alive for a transfer whose call is in
+progress / has returned / that left the list: tasks the call cancelled (it waits for them), and
+*late* download initialisations — created by a peer request that arrived while the call held the state
+lock — which are still before `state.initialize()` (`created`, `blocked`) or were refused
+(`refused`).  Neither kind ever acts on the transfer (`quiet_step`).
 -/
 namespace AioslskVerif.Tasks
 open AioslskVerif.Sched (St Dir)
@@ -8,29 +14,49 @@ open AioslskVerif.Sched (St Dir)
 @[simp] theorem upd_same {α} (f : Nat → α) (k : Nat) (v : α) : upd f k v k = v := by simp [upd]
 theorem upd_other {α} (f : Nat → α) {k i : Nat} (v : α) (h : i ≠ k) : upd f k v i = f i := by simp [upd, h]
 
+/-- a download initialisation that has not got past `state.initialize()` -/
+def LateShape (tk : Task) : Prop :=
+  tk.kind = .initDownload ∧ (tk.phase = .created ∨ tk.phase = .blocked ∨ tk.phase = .refused)
+
+/-- a task that will not act on its transfer any more: cancelled, or a late initialisation -/
+def Inert (tk : Task) : Prop := tk.cancelReq = true ∨ LateShape tk
+
 structure Inv (s : TS) : Prop where
   /-- no task beyond the counter is alive, every live task belongs to an existing transfer -/
   fresh : ∀ t, s.nt ≤ t → (s.tasks t).live = false
   bound : ∀ t, (s.tasks t).live = true → (s.tasks t).xfer < s.nx
   /-- single flight: a live task is the one its transfer's slot holds -/
   single : ∀ t, (s.tasks t).live = true → (s.xs (s.tasks t).xfer).slotOf (s.tasks t).kind = some t
-  /-- a call in progress waits for every live task of its transfer -/
-  waits : ∀ k, (s.xs k).locked ≠ none → ∀ t, (s.tasks t).live = true → (s.tasks t).xfer = k → t ∈ (s.xs k).waitFor
-  /-- after a call returned nothing is alive for the transfer -/
-  quietDead : ∀ k, (s.xs k).quiet = true → ∀ t, (s.tasks t).live = true → (s.tasks t).xfer ≠ k
-  quietSt : ∀ k, (s.xs k).quiet = true → (s.xs k).removed = true ∨ (s.xs k).st = .aborted ∨ (s.xs k).st = .paused ∨ (s.xs k).st = .failed
+  /-- a call in progress waits for every live task of its transfer, except late initialisations -/
+  waits : ∀ k, (s.xs k).locked ≠ none → ∀ t, (s.tasks t).live = true → (s.tasks t).xfer = k →
+    t ∈ (s.xs k).waitFor ∨ LateShape (s.tasks t)
+  /-- after a call returned everything still alive for the transfer is inert -/
+  quietInert : ∀ k, (s.xs k).quiet = true → ∀ t, (s.tasks t).live = true → (s.tasks t).xfer = k → Inert (s.tasks t)
+  quietSt : ∀ k, (s.xs k).quiet = true → (s.xs k).removed = true ∨ (s.xs k).st = .aborted ∨ (s.xs k).st = .paused ∨
+    ((s.xs k).st = .failed ∧ (s.xs k).retry = false)
+  /-- everything still alive for a transfer that left the list has been cancelled -/
+  removedCancelled : ∀ k, (s.xs k).removed = true → ∀ t, (s.tasks t).live = true → (s.tasks t).xfer = k →
+    (s.tasks t).cancelReq = true
 
 theorem inv_init : Inv {} := by
   constructor <;> intros <;> simp_all [Task.live]
 
-/-- tasks only die, transfers keep slots / lock / ghost flags, quiet transfers keep their state -/
+theorem live_phase {t : Task} :
+    t.live = true ↔ (t.phase = .created ∨ t.phase = .running ∨ t.phase = .blocked ∨ t.phase = .refused) := by
+  cases t with | mk x k p c => cases p <;> simp [Task.live]
+
+/-- tasks only die / get cancelled / stay late, transfers keep slots / lock / ghost flags, quiet transfers keep their
+state -/
 theorem Inv.frame {s s' : TS} (h : Inv s) (hnx : s'.nx = s.nx) (hnt : s'.nt = s.nt)
     (htask : ∀ t, (s'.tasks t).live = true →
-      (s.tasks t).live = true ∧ (s'.tasks t).xfer = (s.tasks t).xfer ∧ (s'.tasks t).kind = (s.tasks t).kind)
+      (s.tasks t).live = true ∧ (s'.tasks t).xfer = (s.tasks t).xfer ∧ (s'.tasks t).kind = (s.tasks t).kind ∧
+      ((s.tasks t).cancelReq = true → (s'.tasks t).cancelReq = true) ∧
+      (((s.xs (s.tasks t).xfer).locked ≠ none ∨ (s.xs (s.tasks t).xfer).quiet = true) →
+        LateShape (s.tasks t) → LateShape (s'.tasks t)))
     (hx : ∀ k, (s'.xs k).rqSlot = (s.xs k).rqSlot ∧ (s'.xs k).ttSlot = (s.xs k).ttSlot ∧
       (s'.xs k).locked = (s.xs k).locked ∧ (s'.xs k).waitFor = (s.xs k).waitFor ∧
       (s'.xs k).quiet = (s.xs k).quiet ∧ (s'.xs k).removed = (s.xs k).removed)
-    (hst : ∀ k, (s.xs k).quiet = true → (s'.xs k).st = (s.xs k).st) : Inv s' := by
+    (hst : ∀ k, (s.xs k).quiet = true → (s'.xs k).st = (s.xs k).st ∧ (s'.xs k).retry = (s.xs k).retry) : Inv s' := by
   have hslot : ∀ k kd, (s'.xs k).slotOf kd = (s.xs k).slotOf kd := by
     intro k kd
     cases kd <;> simp [XT.slotOf, (hx k).1, (hx k).2.1]
@@ -47,23 +73,32 @@ theorem Inv.frame {s s' : TS} (h : Inv s) (hnx : s'.nx = s.nx) (hnt : s'.nt = s.
     rw [h2, hnx]
     exact h.bound t h1
   · intro t hl
-    obtain ⟨h1, h2, h3⟩ := htask t hl
+    obtain ⟨h1, h2, h3, _⟩ := htask t hl
     rw [h2, h3, hslot]
     exact h.single t h1
   · intro k hk t hl hxf
-    obtain ⟨h1, h2, _⟩ := htask t hl
+    obtain ⟨h1, h2, _, _, h5⟩ := htask t hl
+    have hxf' : (s.tasks t).xfer = k := h2 ▸ hxf
     rw [(hx k).2.2.2.1]
     rw [(hx k).2.2.1] at hk
-    exact h.waits k hk t h1 (h2 ▸ hxf)
-  · intro k hq t hl
-    obtain ⟨h1, h2, _⟩ := htask t hl
+    rcases h.waits k hk t h1 hxf' with hw | hw
+    · exact Or.inl hw
+    · exact Or.inr (h5 (Or.inl (hxf' ▸ hk)) hw)
+  · intro k hq t hl hxf
+    obtain ⟨h1, h2, _, h4, h5⟩ := htask t hl
+    have hxf' : (s.tasks t).xfer = k := h2 ▸ hxf
     rw [(hx k).2.2.2.2.1] at hq
-    rw [h2]
-    exact h.quietDead k hq t h1
+    rcases h.quietInert k hq t h1 hxf' with hc | hc
+    · exact Or.inl (h4 hc)
+    · exact Or.inr (h5 (Or.inr (hxf' ▸ hq)) hc)
   · intro k hq
     rw [(hx k).2.2.2.2.1] at hq
-    rw [(hx k).2.2.2.2.2, hst k hq]
+    rw [(hx k).2.2.2.2.2, (hst k hq).1, (hst k hq).2]
     exact h.quietSt k hq
+  · intro k hr t hl hxf
+    obtain ⟨h1, h2, _, h4, _⟩ := htask t hl
+    rw [(hx k).2.2.2.2.2] at hr
+    exact h4 (h.removedCancelled k hr t h1 (h2 ▸ hxf))
 
 theorem slotFree_dead {s : TS} (h : Inv s) {k : Nat} {kd : TKind} (hf : s.slotFree ((s.xs k).slotOf kd) = true)
     {t : Nat} (hl : (s.tasks t).live = true) (hx : (s.tasks t).xfer = k)
@@ -73,15 +108,15 @@ theorem slotFree_dead {s : TS} (h : Inv s) {k : Nat} {kd : TKind} (hf : s.slotFr
   rw [this] at hf
   simp [TS.slotFree, hl] at hf
 
-/-- creating a task for `k` in a free slot -/
+/-- creating a task for `k` in a free slot: by a cycle / a peer request when no call is in progress, or a download
+initialisation by a peer request while a call holds the lock -/
 theorem inv_spawn {s : TS} (h : Inv s) {k : Nat} {kd : TKind} (hk : k < s.nx)
-    (hf : s.slotFree ((s.xs k).slotOf kd) = true) (hlock : (s.xs k).locked = none)
-    (hq : (s.xs k).quiet = false) : Inv (s.spawn k kd) := by
+    (hf : s.slotFree ((s.xs k).slotOf kd) = true) (hlock : (s.xs k).locked = none ∨ kd = .initDownload)
+    (hq : (s.xs k).quiet = false) (hr : (s.xs k).removed = false) : Inv (s.spawn k kd) := by
   have hnew : ∀ t, t ≠ s.nt → (s.spawn k kd).tasks t = s.tasks t := fun t ht => upd_other _ _ ht
   have hme : (s.spawn k kd).tasks s.nt = { xfer := k, kind := kd, phase := .created } := upd_same _ _ _
   have hxo : ∀ j, j ≠ k → (s.spawn k kd).xs j = s.xs j := fun j hj => upd_other _ _ hj
   have hnt : (s.spawn k kd).nt = s.nt + 1 := rfl
-  have hnx : (s.spawn k kd).nx = s.nx := rfl
   have hkeep : ((s.spawn k kd).xs k).locked = (s.xs k).locked ∧ ((s.spawn k kd).xs k).waitFor = (s.xs k).waitFor ∧
       ((s.spawn k kd).xs k).quiet = (s.xs k).quiet ∧ ((s.spawn k kd).xs k).removed = (s.xs k).removed ∧
       ((s.spawn k kd).xs k).st = (s.xs k).st := by
@@ -114,36 +149,47 @@ theorem inv_spawn {s : TS} (h : Inv s) {k : Nat} {kd : TKind} (hk : k < s.nx)
   · intro j hj t hl hxf
     by_cases ht : t = s.nt
     · subst ht
-      rw [hme] at hxf
+      rw [hme] at hxf ⊢
       simp only at hxf
       subst hxf
       rw [hkeep.1] at hj
-      exact absurd hlock hj
-    · rw [hnew t ht] at hl hxf
+      rcases hlock with hlock | hlock
+      · exact absurd hlock hj
+      · exact Or.inr ⟨hlock, Or.inl rfl⟩
+    · rw [hnew t ht] at hl hxf ⊢
       by_cases hjk : j = k
-      · subst hjk; rw [hkeep.1] at hj; exact absurd hlock hj
+      · subst hjk; rw [hkeep.1] at hj; rw [hkeep.2.1]; exact h.waits j hj t hl hxf
       · rw [hxo j hjk] at hj ⊢; exact h.waits j hj t hl hxf
-  · intro j hj t hl
+  · intro j hj t hl hxf
     by_cases hjk : j = k
     · subst hjk; rw [hkeep.2.2.1, hq] at hj; cases hj
     · rw [hxo j hjk] at hj
       by_cases ht : t = s.nt
-      · subst ht; rw [hme]; exact fun e => hjk e.symm
-      · rw [hnew t ht] at hl ⊢; exact h.quietDead j hj t hl
+      · subst ht; rw [hme] at hxf; exact absurd hxf.symm hjk
+      · rw [hnew t ht] at hl hxf ⊢; exact h.quietInert j hj t hl hxf
   · intro j hj
     by_cases hjk : j = k
     · subst hjk; rw [hkeep.2.2.1, hq] at hj; cases hj
     · rw [hxo j hjk] at hj ⊢; exact h.quietSt j hj
+  · intro j hj t hl hxf
+    by_cases hjk : j = k
+    · subst hjk; rw [hkeep.2.2.2.1, hr] at hj; cases hj
+    · rw [hxo j hjk] at hj
+      by_cases ht : t = s.nt
+      · subst ht; rw [hme] at hxf; exact absurd hxf.symm hjk
+      · rw [hnew t ht] at hl hxf ⊢; exact h.removedCancelled j hj t hl hxf
 
 theorem not_quiet_of_spawnable {s : TS} (h : Inv s) {k : Nat}
-    (hr : (s.xs k).removed = false) (hs : (s.xs k).st = .queued ∨ (s.xs k).st = .incomplete) : (s.xs k).quiet = false := by
+    (hr : (s.xs k).removed = false)
+    (hs : (s.xs k).st = .queued ∨ (s.xs k).st = .incomplete ∨ ((s.xs k).st = .failed ∧ (s.xs k).retry = true)) :
+    (s.xs k).quiet = false := by
   cases hq : (s.xs k).quiet
   · rfl
   · rcases h.quietSt k hq with h1 | h1 | h1 | h1
     · rw [hr] at h1; cases h1
-    · rcases hs with h2 | h2 <;> rw [h2] at h1 <;> cases h1
-    · rcases hs with h2 | h2 <;> rw [h2] at h1 <;> cases h1
-    · rcases hs with h2 | h2 <;> rw [h2] at h1 <;> cases h1
+    · rcases hs with h2 | h2 | h2 <;> simp [h1] at h2
+    · rcases hs with h2 | h2 | h2 <;> simp [h1] at h2
+    · rcases hs with h2 | h2 | h2 <;> simp [h1.1, h1.2] at h2
 
 theorem inv_trySpawn {s : TS} (h : Inv s) (k : Nat) : Inv (s.trySpawn k) := by
   unfold TS.trySpawn
@@ -158,12 +204,13 @@ theorem inv_trySpawn {s : TS} (h : Inv s) (k : Nat) : Inv (s.trySpawn k) := by
       · split at hsp
         · rename_i hd
           cases hsp
-          exact inv_spawn h hk (by simpa [XT.slotOf] using hd.2.2) hl (not_quiet_of_spawnable h hr hd.1)
+          exact inv_spawn h hk (by simpa [XT.slotOf] using hd.2.2) (Or.inl hl) (not_quiet_of_spawnable h hr hd.1) hr
         · cases hsp
       · split at hsp
         · rename_i hd
           cases hsp
-          exact inv_spawn h hk (by simpa [XT.slotOf] using hd.2) hl (not_quiet_of_spawnable h hr (Or.inl hd.1))
+          exact inv_spawn h hk (by simpa [XT.slotOf] using hd.2) (Or.inl hl)
+            (not_quiet_of_spawnable h hr (Or.inl hd.1)) hr
         · cases hsp
     · cases hsp
   · exact h
@@ -173,51 +220,78 @@ theorem inv_cycle {s : TS} (h : Inv s) (ks : List Nat) : Inv (ks.foldl TS.trySpa
   | nil => exact h
   | cons k ks ih => exact ih (inv_trySpawn h k)
 
-theorem live_phase {t : Task} : t.live = true ↔ (t.phase = .created ∨ t.phase = .running) := by
-  cases t with | mk x k p c => cases p <;> simp [Task.live]
-
-/-- a task step: the task `t` (live) changes phase; its transfer changes state / counters only -/
-theorem inv_taskUpdate {s : TS} (h : Inv s) (t : Nat) (hl : (s.tasks t).live = true) (tk' : Task) (x' : XT)
-    (htk : tk'.xfer = (s.tasks t).xfer ∧ tk'.kind = (s.tasks t).kind)
+/-- a task step: the task `t` changes phase; its transfer changes state / counters only -/
+theorem inv_taskUpdate {s : TS} (h : Inv s) (t : Nat) (tk' : Task) (x' : XT)
+    (htk : tk'.live = true → (s.tasks t).live = true ∧ tk'.xfer = (s.tasks t).xfer ∧ tk'.kind = (s.tasks t).kind ∧
+      ((s.tasks t).cancelReq = true → tk'.cancelReq = true) ∧
+      (((s.xs (s.tasks t).xfer).locked ≠ none ∨ (s.xs (s.tasks t).xfer).quiet = true) →
+        LateShape (s.tasks t) → LateShape tk'))
     (hx' : x'.rqSlot = (s.xs (s.tasks t).xfer).rqSlot ∧ x'.ttSlot = (s.xs (s.tasks t).xfer).ttSlot ∧
       x'.locked = (s.xs (s.tasks t).xfer).locked ∧ x'.waitFor = (s.xs (s.tasks t).xfer).waitFor ∧
-      x'.quiet = (s.xs (s.tasks t).xfer).quiet ∧ x'.removed = (s.xs (s.tasks t).xfer).removed) :
+      x'.quiet = (s.xs (s.tasks t).xfer).quiet ∧ x'.removed = (s.xs (s.tasks t).xfer).removed)
+    (hq : (s.xs (s.tasks t).xfer).quiet = true →
+      x'.st = (s.xs (s.tasks t).xfer).st ∧ x'.retry = (s.xs (s.tasks t).xfer).retry) :
     Inv { s with tasks := upd s.tasks t tk', xs := upd s.xs (s.tasks t).xfer x' } := by
   refine Inv.frame h rfl rfl ?_ ?_ ?_
   · intro u hu
     by_cases e : u = t
     · subst e
       simp only [upd_same] at hu ⊢
-      exact ⟨hl, htk.1, htk.2⟩
-    · simp only [upd_other _ _ e] at hu ⊢
-      simp [hu]
+      exact htk hu
+    · dsimp only at hu ⊢
+      rw [upd_other _ _ e] at hu ⊢
+      exact ⟨hu, rfl, rfl, id, fun _ => id⟩
   · intro k
     by_cases e : k = (s.tasks t).xfer
     · subst e; simp only [upd_same]; exact hx'
     · simp [upd_other _ _ e]
-  · intro k hq
+  · intro k hk
     by_cases e : k = (s.tasks t).xfer
-    · exact absurd e.symm (h.quietDead k hq t hl)
-    · simp only [upd_other _ _ e]
+    · subst e; simp only [upd_same]; exact hq hk
+    · dsimp only; rw [upd_other _ _ e]; exact ⟨rfl, rfl⟩
 
-/-- a task only changes phase (cancelled before start / at its await) -/
+/-- a task only changes phase / gets cancelled -/
 theorem inv_taskOnly {s : TS} (h : Inv s) (t : Nat) (tk' : Task)
-    (htk : tk'.xfer = (s.tasks t).xfer ∧ tk'.kind = (s.tasks t).kind) (hl : tk'.live = true → (s.tasks t).live = true) :
+    (htk : tk'.live = true → (s.tasks t).live = true ∧ tk'.xfer = (s.tasks t).xfer ∧ tk'.kind = (s.tasks t).kind ∧
+      ((s.tasks t).cancelReq = true → tk'.cancelReq = true) ∧ (LateShape (s.tasks t) → LateShape tk')) :
     Inv { s with tasks := upd s.tasks t tk' } := by
   refine Inv.frame h rfl rfl ?_ ?_ ?_
   · intro u hu
     by_cases e : u = t
     · subst e
       simp only [upd_same] at hu ⊢
-      exact ⟨hl hu, htk.1, htk.2⟩
-    · simp only [upd_other _ _ e] at hu ⊢
-      simp [hu]
+      obtain ⟨a, b, c, d, e⟩ := htk hu
+      exact ⟨a, b, c, d, fun _ => e⟩
+    · dsimp only at hu ⊢
+      rw [upd_other _ _ e] at hu ⊢
+      exact ⟨hu, rfl, rfl, id, fun _ => id⟩
   · intro k; exact ⟨rfl, rfl, rfl, rfl, rfl, rfl⟩
-  · intro k _; rfl
+  · intro k _; exact ⟨rfl, rfl⟩
+
+theorem dead_of_done (tk : Task) : ({ tk with phase := .done } : Task).live = true → False := by
+  simp [Task.live]
 
 theorem bump_fields (x : XT) : (bump x).rqSlot = x.rqSlot ∧ (bump x).ttSlot = x.ttSlot ∧ (bump x).locked = x.locked ∧
     (bump x).waitFor = x.waitFor ∧ (bump x).quiet = x.quiet ∧ (bump x).removed = x.removed :=
   ⟨rfl, rfl, rfl, rfl, rfl, rfl⟩
+
+/-- a live task of a quiet transfer that has not been cancelled is a late initialisation -/
+theorem late_of_quiet {s : TS} (h : Inv s) {t : Nat} (hl : (s.tasks t).live = true)
+    (hq : (s.xs (s.tasks t).xfer).quiet = true) (hc : (s.tasks t).cancelReq = false) : LateShape (s.tasks t) := by
+  rcases h.quietInert _ hq t hl rfl with h1 | h1
+  · rw [hc] at h1; cases h1
+  · exact h1
+
+/-- … and its transfer cannot be initialised: a quiet transfer whose lock is free is ABORTED / PAUSED / FAILED -/
+theorem quiet_not_startable {s : TS} (h : Inv s) {t : Nat} (hl : (s.tasks t).live = true)
+    (hq : (s.xs (s.tasks t).xfer).quiet = true) (hc : (s.tasks t).cancelReq = false)
+    (hs : (s.xs (s.tasks t).xfer).st = .queued ∨ (s.xs (s.tasks t).xfer).st = .incomplete) : False := by
+  rcases h.quietSt _ hq with h1 | h1 | h1 | h1
+  · have := h.removedCancelled _ h1 t hl rfl
+    rw [hc] at this; cases this
+  · rcases hs with h2 | h2 <;> rw [h1] at h2 <;> cases h2
+  · rcases hs with h2 | h2 <;> rw [h1] at h2 <;> cases h2
+  · rcases hs with h2 | h2 <;> rw [h1.1] at h2 <;> cases h2
 
 theorem inv_taskStart {s : TS} (h : Inv s) (t : Nat) : Inv (step s (.taskStart t)) := by
   simp only [step]
@@ -225,62 +299,121 @@ theorem inv_taskStart {s : TS} (h : Inv s) (t : Nat) : Inv (step s (.taskStart t
   · rename_i hp
     have hl : (s.tasks t).live = true := live_phase.mpr (Or.inl hp)
     split
-    · refine inv_taskOnly h t _ ?_ ?_
-      · exact ⟨rfl, rfl⟩
-      · intro hc; simp [Task.live] at hc
-    · refine inv_taskUpdate h t hl _ _ ?_ ?_
-      · exact ⟨rfl, rfl⟩
+    · exact inv_taskOnly h t _ (fun hc => (dead_of_done _ hc).elim)
+    · rename_i hnc
+      have hnc' : (s.tasks t).cancelReq = false := by simpa using hnc
       split
-      · exact bump_fields _
-      · split <;> exact ⟨rfl, rfl, rfl, rfl, rfl, rfl⟩
+      · -- queueRemotely
+        rename_i hkd
+        refine inv_taskUpdate h t _ _ ?_ (bump_fields _) ?_
+        · intro _
+          refine ⟨hl, rfl, rfl, id, fun _ hls => ?_⟩
+          have := hls.1
+          rw [hkd] at this; cases this
+        · intro _; exact ⟨rfl, rfl⟩
+      · -- initUpload
+        rename_i hkd
+        refine inv_taskUpdate h t _ _ ?_ ?_ ?_
+        · intro _
+          refine ⟨hl, rfl, rfl, id, fun _ hls => ?_⟩
+          have := hls.1
+          rw [hkd] at this; cases this
+        · split <;> exact ⟨rfl, rfl, rfl, rfl, rfl, rfl⟩
+        · intro hq
+          have := (late_of_quiet h hl hq hnc').1
+          rw [hkd] at this; cases this
+      · -- initDownload
+        rename_i hkd
+        split
+        · -- waits for the lock
+          refine inv_taskOnly h t _ (fun _ => ⟨hl, rfl, rfl, id, fun _ => ⟨hkd, Or.inr (Or.inl rfl)⟩⟩)
+        · rename_i hnl
+          split
+          · rename_i hs
+            refine inv_taskUpdate h t _ _ ?_ (bump_fields _) ?_
+            · intro _
+              refine ⟨hl, rfl, rfl, id, fun hlq _ => ?_⟩
+              exfalso
+              rcases hlq with hlk | hq
+              · -- a call is in progress but the lock is free: the transfer left the list, the task was cancelled
+                have hrem : (s.xs (s.tasks t).xfer).removed = true := by
+                  cases hlo : (s.xs (s.tasks t).xfer).locked with
+                  | none => exact absurd hlo hlk
+                  | some c =>
+                    cases hr : (s.xs (s.tasks t).xfer).removed with
+                    | true => rfl
+                    | false => simp [XT.lockHeld, hlo, hr] at hnl
+                have := h.removedCancelled _ hrem t hl rfl
+                rw [hnc'] at this; cases this
+              · exact quiet_not_startable h hl hq hnc' hs
+            · intro hq; exact (quiet_not_startable h hl hq hnc' hs).elim
+          · refine inv_taskOnly h t _ (fun _ => ⟨hl, rfl, rfl, id, fun _ => ⟨hkd, Or.inr (Or.inr rfl)⟩⟩)
   · exact h
 
 theorem inv_taskEnd {s : TS} (h : Inv s) (t : Nat) (o : Outcome) : Inv (step s (.taskEnd t o)) := by
   simp only [step]
   split
   · rename_i hp
-    have hl : (s.tasks t).live = true := live_phase.mpr (Or.inr hp)
+    have hl : (s.tasks t).live = true := live_phase.mpr (Or.inr (Or.inl hp))
     split
-    · refine inv_taskOnly h t _ ?_ ?_
-      · exact ⟨rfl, rfl⟩
-      · intro hc; simp [Task.live] at hc
-    · split
-      · refine inv_taskUpdate h t hl _ _ ?_ ?_
-        · exact ⟨rfl, rfl⟩
-        · exact ⟨rfl, rfl, rfl, rfl, rfl, rfl⟩
-      · refine inv_taskUpdate h t hl _ _ ?_ ?_
-        · exact ⟨rfl, rfl⟩
-        · split <;> exact ⟨rfl, rfl, rfl, rfl, rfl, rfl⟩
-      · have := inv_taskUpdate h t hl (s.tasks t) (bump (if (s.xs (s.tasks t).xfer).st = .initializing then
+    · exact inv_taskOnly h t _ (fun hc => (dead_of_done _ hc).elim)
+    · rename_i hnc
+      have hnc' : (s.tasks t).cancelReq = false := by simpa using hnc
+      -- a running task that was not cancelled does not belong to a quiet transfer
+      have hnq : (s.xs (s.tasks t).xfer).quiet = true → False := by
+        intro hq
+        rcases (late_of_quiet h hl hq hnc').2 with h1 | h1 | h1 <;> rw [hp] at h1 <;> cases h1
+      split
+      · refine inv_taskUpdate h t _ _ (fun hc => (dead_of_done _ hc).elim) ⟨rfl, rfl, rfl, rfl, rfl, rfl⟩
+          (fun hq => (hnq hq).elim)
+      · refine inv_taskUpdate h t _ _ (fun hc => (dead_of_done _ hc).elim) ?_ (fun hq => (hnq hq).elim)
+        split <;> exact ⟨rfl, rfl, rfl, rfl, rfl, rfl⟩
+      · have := inv_taskUpdate h t (s.tasks t) (bump (if (s.xs (s.tasks t).xfer).st = .initializing then
             { s.xs (s.tasks t).xfer with
               st := (if (s.xs (s.tasks t).xfer).dir = .upload then .uploading else .downloading), rq := false, attempts := 0 }
-            else s.xs (s.tasks t).xfer)) ⟨rfl, rfl⟩ (by split <;> exact ⟨rfl, rfl, rfl, rfl, rfl, rfl⟩)
+            else s.xs (s.tasks t).xfer)) (fun _ => ⟨hl, rfl, rfl, id, fun _ => id⟩)
+            (by split <;> exact ⟨rfl, rfl, rfl, rfl, rfl, rfl⟩) (fun hq => (hnq hq).elim)
         have e : upd s.tasks t (s.tasks t) = s.tasks := by
           funext i; by_cases hi : i = t <;> simp [upd, hi]
         rw [e] at this
         exact this
-      · refine inv_taskUpdate h t hl _ _ ?_ ?_
-        · exact ⟨rfl, rfl⟩
-        · split <;> exact ⟨rfl, rfl, rfl, rfl, rfl, rfl⟩
-      · refine inv_taskUpdate h t hl _ _ ?_ ?_
-        · exact ⟨rfl, rfl⟩
-        · split <;> exact ⟨rfl, rfl, rfl, rfl, rfl, rfl⟩
-      · refine inv_taskUpdate h t hl _ _ ?_ ?_
-        · exact ⟨rfl, rfl⟩
-        · split <;> exact ⟨rfl, rfl, rfl, rfl, rfl, rfl⟩
-      · refine inv_taskUpdate h t hl _ _ ?_ ?_
-        · exact ⟨rfl, rfl⟩
-        · split <;> exact ⟨rfl, rfl, rfl, rfl, rfl, rfl⟩
-  · exact h
+      · refine inv_taskUpdate h t _ _ (fun hc => (dead_of_done _ hc).elim) ?_ (fun hq => (hnq hq).elim)
+        split <;> exact ⟨rfl, rfl, rfl, rfl, rfl, rfl⟩
+      · refine inv_taskUpdate h t _ _ (fun hc => (dead_of_done _ hc).elim) ?_ (fun hq => (hnq hq).elim)
+        split <;> exact ⟨rfl, rfl, rfl, rfl, rfl, rfl⟩
+      · refine inv_taskUpdate h t _ _ (fun hc => (dead_of_done _ hc).elim) ?_ (fun hq => (hnq hq).elim)
+        split <;> exact ⟨rfl, rfl, rfl, rfl, rfl, rfl⟩
+      · refine inv_taskUpdate h t _ _ (fun hc => (dead_of_done _ hc).elim) ?_ (fun hq => (hnq hq).elim)
+        split <;> exact ⟨rfl, rfl, rfl, rfl, rfl, rfl⟩
+  · split
+    · exact inv_taskOnly h t _ (fun hc => (dead_of_done _ hc).elim)
+    · split
+      · exact inv_taskOnly h t _ (fun hc => (dead_of_done _ hc).elim)
+      · exact h
 
-theorem inv_done_generic {s : TS} (h : Inv s) (t : Nat) (tk' : Task) (hdead' : tk'.live = false) (x' : XT)
+theorem inv_done_generic {s : TS} (h : Inv s) (t : Nat) (tk' : Task) (hdead : (s.tasks t).live = false)
+    (hdead' : tk'.live = false) (x' : XT)
     (hkeep : x'.locked = (s.xs (s.tasks t).xfer).locked ∧ x'.waitFor = (s.xs (s.tasks t).xfer).waitFor ∧
         x'.quiet = (s.xs (s.tasks t).xfer).quiet ∧ x'.removed = (s.xs (s.tasks t).xfer).removed ∧
-        x'.st = (s.xs (s.tasks t).xfer).st)
+        x'.st = (s.xs (s.tasks t).xfer).st ∧ x'.retry = (s.xs (s.tasks t).xfer).retry)
     (hslot : ∀ kd u, u ≠ t → (s.xs (s.tasks t).xfer).slotOf kd = some u → x'.slotOf kd = some u) :
     Inv { s with tasks := upd s.tasks t tk', xs := upd s.xs (s.tasks t).xfer x' } := by
   have htasks : ∀ u, u ≠ t → upd s.tasks t tk' u = s.tasks u := fun u hu => upd_other _ _ hu
   have hme : (upd s.tasks t tk' t).live = false := by rw [upd_same]; exact hdead'
+  -- every live task is another task than `t`, unchanged
+  have hlive : ∀ u, (upd s.tasks t tk' u).live = true → u ≠ t ∧ upd s.tasks t tk' u = s.tasks u := by
+    intro u hu
+    by_cases e : u = t
+    · subst e; rw [hme] at hu; cases hu
+    · exact ⟨e, htasks u e⟩
+  have hxk : ∀ k, (upd s.xs (s.tasks t).xfer x' k).locked = (s.xs k).locked ∧
+      (upd s.xs (s.tasks t).xfer x' k).waitFor = (s.xs k).waitFor ∧
+      (upd s.xs (s.tasks t).xfer x' k).quiet = (s.xs k).quiet ∧ (upd s.xs (s.tasks t).xfer x' k).removed = (s.xs k).removed ∧
+      (upd s.xs (s.tasks t).xfer x' k).st = (s.xs k).st ∧ (upd s.xs (s.tasks t).xfer x' k).retry = (s.xs k).retry := by
+    intro k
+    by_cases ek : k = (s.tasks t).xfer
+    · subst ek; rw [upd_same]; exact hkeep
+    · rw [upd_other _ _ ek]; exact ⟨rfl, rfl, rfl, rfl, rfl, rfl⟩
   constructor
   · intro u hu
     show (upd s.tasks t tk' u).live = false
@@ -290,60 +423,63 @@ theorem inv_done_generic {s : TS} (h : Inv s) (t : Nat) (tk' : Task) (hdead' : t
   · intro u hl
     change (upd s.tasks t tk' u).live = true at hl
     show (upd s.tasks t tk' u).xfer < s.nx
-    by_cases e : u = t
-    · subst e; rw [hme] at hl; cases hl
-    · rw [htasks u e] at hl ⊢; exact h.bound u hl
+    obtain ⟨_, e⟩ := hlive u hl
+    rw [e] at hl ⊢; exact h.bound u hl
   · intro u hl
     change (upd s.tasks t tk' u).live = true at hl
     show (upd s.xs (s.tasks t).xfer x' (upd s.tasks t tk' u).xfer).slotOf (upd s.tasks t tk' u).kind = some u
-    by_cases e : u = t
-    · subst e; rw [hme] at hl; cases hl
-    · rw [htasks u e] at hl ⊢
-      by_cases ex : (s.tasks u).xfer = (s.tasks t).xfer
-      · rw [ex, upd_same]
-        have := h.single u hl
-        rw [ex] at this
-        exact hslot _ u e this
-      · rw [upd_other _ _ ex]; exact h.single u hl
+    obtain ⟨ne, e⟩ := hlive u hl
+    rw [e] at hl ⊢
+    by_cases ex : (s.tasks u).xfer = (s.tasks t).xfer
+    · rw [ex, upd_same]
+      have := h.single u hl
+      rw [ex] at this
+      exact hslot _ u ne this
+    · rw [upd_other _ _ ex]; exact h.single u hl
   · intro k hk u hl hxf
     change (upd s.tasks t tk' u).live = true at hl
     change (upd s.tasks t tk' u).xfer = k at hxf
     change (upd s.xs (s.tasks t).xfer x' k).locked ≠ none at hk
-    show u ∈ (upd s.xs (s.tasks t).xfer x' k).waitFor
-    by_cases e : u = t
-    · subst e; rw [hme] at hl; cases hl
-    · rw [htasks u e] at hl hxf
-      by_cases ek : k = (s.tasks t).xfer
-      · subst ek
-        rw [upd_same] at hk ⊢
-        rw [hkeep.1] at hk; rw [hkeep.2.1]
-        exact h.waits _ hk u hl hxf
-      · rw [upd_other _ _ ek] at hk ⊢
-        exact h.waits k hk u hl hxf
-  · intro k hq u hl
+    show u ∈ (upd s.xs (s.tasks t).xfer x' k).waitFor ∨ LateShape (upd s.tasks t tk' u)
+    obtain ⟨_, e⟩ := hlive u hl
+    rw [e] at hl hxf ⊢
+    rw [(hxk k).1] at hk; rw [(hxk k).2.1]
+    exact h.waits k hk u hl hxf
+  · intro k hq u hl hxf
     change (upd s.tasks t tk' u).live = true at hl
+    change (upd s.tasks t tk' u).xfer = k at hxf
     change (upd s.xs (s.tasks t).xfer x' k).quiet = true at hq
-    show (upd s.tasks t tk' u).xfer ≠ k
-    by_cases e : u = t
-    · subst e; rw [hme] at hl; cases hl
-    · rw [htasks u e] at hl ⊢
-      by_cases ek : k = (s.tasks t).xfer
-      · subst ek; rw [upd_same, hkeep.2.2.1] at hq; exact h.quietDead _ hq u hl
-      · rw [upd_other _ _ ek] at hq; exact h.quietDead k hq u hl
+    show Inert (upd s.tasks t tk' u)
+    obtain ⟨_, e⟩ := hlive u hl
+    rw [e] at hl hxf ⊢
+    rw [(hxk k).2.2.1] at hq
+    exact h.quietInert k hq u hl hxf
   · intro k hq
     change (upd s.xs (s.tasks t).xfer x' k).quiet = true at hq
     show (upd s.xs (s.tasks t).xfer x' k).removed = true ∨ (upd s.xs (s.tasks t).xfer x' k).st = .aborted ∨
-      (upd s.xs (s.tasks t).xfer x' k).st = .paused ∨ (upd s.xs (s.tasks t).xfer x' k).st = .failed
-    by_cases ek : k = (s.tasks t).xfer
-    · subst ek; rw [upd_same] at hq ⊢; rw [hkeep.2.2.1] at hq; rw [hkeep.2.2.2.1, hkeep.2.2.2.2]; exact h.quietSt _ hq
-    · rw [upd_other _ _ ek] at hq ⊢; exact h.quietSt k hq
+      (upd s.xs (s.tasks t).xfer x' k).st = .paused ∨
+      ((upd s.xs (s.tasks t).xfer x' k).st = .failed ∧ (upd s.xs (s.tasks t).xfer x' k).retry = false)
+    rw [(hxk k).2.2.1] at hq
+    rw [(hxk k).2.2.2.1, (hxk k).2.2.2.2.1, (hxk k).2.2.2.2.2]
+    exact h.quietSt k hq
+  · intro k hr u hl hxf
+    change (upd s.tasks t tk' u).live = true at hl
+    change (upd s.tasks t tk' u).xfer = k at hxf
+    change (upd s.xs (s.tasks t).xfer x' k).removed = true at hr
+    show (upd s.tasks t tk' u).cancelReq = true
+    obtain ⟨_, e⟩ := hlive u hl
+    rw [e] at hl hxf ⊢
+    rw [(hxk k).2.2.2.1] at hr
+    exact h.removedCancelled k hr u hl hxf
 
 theorem inv_doneCallback {s : TS} (h : Inv s) (t : Nat) : Inv (step s (.doneCallback t)) := by
   simp only [step]
   split
-  · refine inv_done_generic h t _ ?_ _ ?_ ?_
+  · rename_i hp
+    refine inv_done_generic h t _ ?_ ?_ _ ?_ ?_
+    · simp [Task.live, hp]
     · simp [Task.live]
-    · split <;> split <;> exact ⟨rfl, rfl, rfl, rfl, rfl⟩
+    · split <;> split <;> exact ⟨rfl, rfl, rfl, rfl, rfl, rfl⟩
     · intro kd u hu hs
       cases kd <;> split <;> simp only [XT.slotOf] at hs ⊢ <;> split <;> simp_all
   · exact h
@@ -351,191 +487,43 @@ theorem inv_doneCallback {s : TS} (h : Inv s) (t : Nat) : Inv (step s (.doneCall
 theorem mem_liveIn {s : TS} {o : Option Nat} {t : Nat} (ho : o = some t) (hl : (s.tasks t).live = true) : t ∈ liveIn s o := by
   subst ho; simp [liveIn, hl]
 
+/-- a live task of `k` is in one of the slots of `k` -/
+theorem mem_slots {s : TS} (h : Inv s) {k t : Nat} (hl : (s.tasks t).live = true) (hx : (s.tasks t).xfer = k) :
+    t ∈ liveIn s (s.xs k).rqSlot ++ liveIn s (s.xs k).ttSlot := by
+  have := h.single t hl
+  rw [hx] at this
+  simp only [List.mem_append]
+  cases hk : (s.tasks t).kind <;> simp only [XT.slotOf, hk] at this
+  · exact Or.inl (mem_liveIn this hl)
+  · exact Or.inr (mem_liveIn this hl)
+  · exact Or.inr (mem_liveIn this hl)
+
 theorem cancelSlots_task (s : TS) (k t : Nat) :
     ((s.cancelSlots k).tasks t).live = (s.tasks t).live ∧ ((s.cancelSlots k).tasks t).xfer = (s.tasks t).xfer ∧
-      ((s.cancelSlots k).tasks t).kind = (s.tasks t).kind := by
+      ((s.cancelSlots k).tasks t).kind = (s.tasks t).kind ∧ ((s.cancelSlots k).tasks t).phase = (s.tasks t).phase ∧
+      ((s.tasks t).cancelReq = true → ((s.cancelSlots k).tasks t).cancelReq = true) ∧
+      (t ∈ liveIn s (s.xs k).rqSlot ++ liveIn s (s.xs k).ttSlot → ((s.cancelSlots k).tasks t).cancelReq = true) := by
   unfold TS.cancelSlots
   simp only
-  split <;> simp [Task.live]
-
-theorem inv_call {s : TS} (h : Inv s) (k : Nat) (c : CallKind) : Inv (step s (.call k c)) := by
-  simp only [step]
   split
-  · rename_i hc
-    obtain ⟨_, hr, _, _⟩ := hc
-    have hxs : (s.cancelSlots k).xs = s.xs := rfl
-    have hnt : (s.cancelSlots k).nt = s.nt := rfl
-    have hnx : (s.cancelSlots k).nx = s.nx := rfl
-    constructor
-    · intro t ht
-      show ((s.cancelSlots k).tasks t).live = false
-      rw [(cancelSlots_task s k t).1]; exact h.fresh t ht
-    · intro t hl
-      change ((s.cancelSlots k).tasks t).live = true at hl
-      show ((s.cancelSlots k).tasks t).xfer < s.nx
-      rw [(cancelSlots_task s k t).1] at hl
-      rw [(cancelSlots_task s k t).2.1]; exact h.bound t hl
-    · intro t hl
-      change ((s.cancelSlots k).tasks t).live = true at hl
-      rw [(cancelSlots_task s k t).1] at hl
-      show (upd s.xs k _ ((s.cancelSlots k).tasks t).xfer).slotOf ((s.cancelSlots k).tasks t).kind = some t
-      rw [(cancelSlots_task s k t).2.1, (cancelSlots_task s k t).2.2]
-      by_cases e : (s.tasks t).xfer = k
-      · rw [e, upd_same]
-        have := h.single t hl
-        rw [e] at this
-        cases hk : (s.tasks t).kind <;> simp only [XT.slotOf, hk] at this ⊢ <;> exact this
-      · rw [upd_other _ _ e]; exact h.single t hl
-    · intro j hj t hl hxf
-      change ((s.cancelSlots k).tasks t).live = true at hl
-      change ((s.cancelSlots k).tasks t).xfer = j at hxf
-      rw [(cancelSlots_task s k t).1] at hl
-      rw [(cancelSlots_task s k t).2.1] at hxf
-      show t ∈ (upd s.xs k _ j).waitFor
-      by_cases e : j = k
-      · subst e
-        rw [upd_same]
-        have := h.single t hl
-        rw [hxf] at this
-        simp only [List.mem_append]
-        cases hk : (s.tasks t).kind <;> simp only [XT.slotOf, hk] at this
-        · exact Or.inl (mem_liveIn this hl)
-        · exact Or.inr (mem_liveIn this hl)
-        · exact Or.inr (mem_liveIn this hl)
-      · change (upd s.xs k _ j).locked ≠ none at hj
-        rw [upd_other _ _ e] at hj ⊢
-        exact h.waits j hj t hl hxf
-    · intro j hq t hl
-      change ((s.cancelSlots k).tasks t).live = true at hl
-      rw [(cancelSlots_task s k t).1] at hl
-      show ((s.cancelSlots k).tasks t).xfer ≠ j
-      rw [(cancelSlots_task s k t).2.1]
-      change (upd s.xs k _ j).quiet = true at hq
-      by_cases e : j = k
-      · subst e; rw [upd_same] at hq; exact h.quietDead _ hq t hl
-      · rw [upd_other _ _ e] at hq; exact h.quietDead j hq t hl
-    · intro j hq
-      change (upd s.xs k _ j).quiet = true at hq
-      show (upd s.xs k _ j).removed = true ∨ (upd s.xs k _ j).st = .aborted ∨ (upd s.xs k _ j).st = .paused ∨ (upd s.xs k _ j).st = .failed
-      by_cases e : j = k
-      · subst e
-        rw [upd_same] at hq ⊢
-        rcases h.quietSt _ hq with h1 | h1 | h1 | h1
-        · rw [hr] at h1; cases h1
-        · exact Or.inr (Or.inl h1)
-        · exact Or.inr (Or.inr (Or.inl h1))
-        · exact Or.inr (Or.inr (Or.inr h1))
-      · rw [upd_other _ _ e] at hq ⊢; exact h.quietSt j hq
-  · exact h
+  · simp [Task.live]
+  · rename_i hn
+    exact ⟨rfl, rfl, rfl, rfl, id, fun hm => absurd hm hn⟩
 
-theorem inv_callResume {s : TS} (h : Inv s) (k : Nat) : Inv (step s (.callResume k)) := by
-  simp only [step]
-  split
-  · rename_i c hc
-    split
-    · rename_i hw
-      have hnone : ∀ t, (s.tasks t).live = true → (s.tasks t).xfer ≠ k := by
-        intro t hl e
-        have hm := h.waits k (by rw [hc]; simp) t hl e
-        have := List.all_eq_true.mp hw t hm
-        simp [hl] at this
-      constructor
-      · exact h.fresh
-      · exact h.bound
-      · intro t hl
-        show (upd s.xs k _ (s.tasks t).xfer).slotOf (s.tasks t).kind = some t
-        rw [upd_other _ _ (hnone t hl)]; exact h.single t hl
-      · intro j hj t hl hxf
-        show t ∈ (upd s.xs k _ j).waitFor
-        change (upd s.xs k _ j).locked ≠ none at hj
-        by_cases e : j = k
-        · subst e; rw [upd_same] at hj; exact absurd rfl hj
-        · rw [upd_other _ _ e] at hj ⊢; exact h.waits j hj t hl hxf
-      · intro j hq t hl
-        change (upd s.xs k _ j).quiet = true at hq
-        by_cases e : j = k
-        · subst e; exact hnone t hl
-        · rw [upd_other _ _ e] at hq; exact h.quietDead j hq t hl
-      · intro j hq
-        change (upd s.xs k _ j).quiet = true at hq
-        show (upd s.xs k _ j).removed = true ∨ (upd s.xs k _ j).st = .aborted ∨ (upd s.xs k _ j).st = .paused ∨ (upd s.xs k _ j).st = .failed
-        by_cases e : j = k
-        · subst e
-          rw [upd_same]
-          cases hr : (s.xs j).removed
-          · simp only [Bool.false_or, if_false, Bool.false_eq_true]
-            by_cases hp : c = .pause
-            · exact Or.inr (Or.inr (Or.inl (by simp [hp])))
-            · exact Or.inr (Or.inl (by simp [hp]))
-          · exact Or.inl (by simp [hr])
-        · rw [upd_other _ _ e] at hq ⊢; exact h.quietSt j hq
-    · exact h
-  · exact h
+theorem inv_cancelSlots {s : TS} (h : Inv s) (k : Nat) : Inv (s.cancelSlots k) := by
+  refine Inv.frame h rfl rfl ?_ (fun _ => ⟨rfl, rfl, rfl, rfl, rfl, rfl⟩) (fun _ _ => ⟨rfl, rfl⟩)
+  intro t hl
+  obtain ⟨a, b, c, d, e, _⟩ := cancelSlots_task s k t
+  rw [a] at hl
+  refine ⟨hl, b, c, e, fun _ hls => ?_⟩
+  exact ⟨c ▸ hls.1, by rw [d]; exact hls.2⟩
 
-theorem inv_requeue {s : TS} (h : Inv s) (k : Nat) : Inv (step s (.requeue k)) := by
-  simp only [step]
-  split
-  · rename_i hc
-    constructor
-    · exact h.fresh
-    · exact h.bound
-    · intro t hl
-      show (upd s.xs k _ (s.tasks t).xfer).slotOf (s.tasks t).kind = some t
-      by_cases e : (s.tasks t).xfer = k
-      · rw [e, upd_same]
-        have := h.single t hl
-        rw [e] at this
-        cases hk : (s.tasks t).kind <;> simp only [XT.slotOf, hk] at this ⊢ <;> exact this
-      · rw [upd_other _ _ e]; exact h.single t hl
-    · intro j hj t hl hxf
-      show t ∈ (upd s.xs k _ j).waitFor
-      change (upd s.xs k _ j).locked ≠ none at hj
-      by_cases e : j = k
-      · subst e; rw [upd_same] at hj; exact absurd hc.2.2.1 hj
-      · rw [upd_other _ _ e] at hj ⊢; exact h.waits j hj t hl hxf
-    · intro j hq t hl
-      change (upd s.xs k _ j).quiet = true at hq
-      by_cases e : j = k
-      · subst e; rw [upd_same] at hq; cases hq
-      · rw [upd_other _ _ e] at hq; exact h.quietDead j hq t hl
-    · intro j hq
-      change (upd s.xs k _ j).quiet = true at hq
-      show (upd s.xs k _ j).removed = true ∨ (upd s.xs k _ j).st = .aborted ∨ (upd s.xs k _ j).st = .paused ∨ (upd s.xs k _ j).st = .failed
-      by_cases e : j = k
-      · subst e; rw [upd_same] at hq; cases hq
-      · rw [upd_other _ _ e] at hq ⊢; exact h.quietSt j hq
-  · exact h
-
-theorem inv_add {s : TS} (h : Inv s) (x : XT) (hx : x.rqSlot = none ∧ x.ttSlot = none ∧ x.locked = none ∧ x.quiet = false) :
-    Inv { s with xs := upd s.xs s.nx x, nx := s.nx + 1 } := by
-  have hne : ∀ t, (s.tasks t).live = true → (s.tasks t).xfer ≠ s.nx := fun t hl => Nat.ne_of_lt (h.bound t hl)
-  constructor
-  · exact h.fresh
-  · intro t hl; exact Nat.lt_succ_of_lt (h.bound t hl)
-  · intro t hl
-    show (upd s.xs s.nx x (s.tasks t).xfer).slotOf (s.tasks t).kind = some t
-    rw [upd_other _ _ (hne t hl)]; exact h.single t hl
-  · intro j hj t hl hxf
-    show t ∈ (upd s.xs s.nx x j).waitFor
-    change (upd s.xs s.nx x j).locked ≠ none at hj
-    by_cases e : j = s.nx
-    · subst e; rw [upd_same] at hj; exact absurd hx.2.2.1 hj
-    · rw [upd_other _ _ e] at hj ⊢; exact h.waits j hj t hl hxf
-  · intro j hq t hl
-    change (upd s.xs s.nx x j).quiet = true at hq
-    by_cases e : j = s.nx
-    · subst e; exact hne t hl
-    · rw [upd_other _ _ e] at hq; exact h.quietDead j hq t hl
-  · intro j hq
-    change (upd s.xs s.nx x j).quiet = true at hq
-    show (upd s.xs s.nx x j).removed = true ∨ (upd s.xs s.nx x j).st = .aborted ∨ (upd s.xs s.nx x j).st = .paused ∨ (upd s.xs s.nx x j).st = .failed
-    by_cases e : j = s.nx
-    · subst e; rw [upd_same, hx.2.2.2] at hq; cases hq
-    · rw [upd_other _ _ e] at hq ⊢; exact h.quietSt j hq
-
-/-- transfer `k` gets new state / flags, keeps its slots, is not locked and not quiet afterwards -/
-theorem inv_reset {s : TS} (h : Inv s) (k : Nat) (x' : XT) (h1 : x'.rqSlot = (s.xs k).rqSlot)
-    (h2 : x'.ttSlot = (s.xs k).ttSlot) (h3 : x'.locked = none) (h4 : x'.quiet = false) :
+/-- the transfer of a call: everything alive for it has just been cancelled and is waited for -/
+theorem inv_lockUpdate {s : TS} (h : Inv s) (k : Nat) (x' : XT)
+    (h1 : x'.rqSlot = (s.xs k).rqSlot) (h2 : x'.ttSlot = (s.xs k).ttSlot) (h3 : x'.quiet = (s.xs k).quiet)
+    (hall : ∀ t, (s.tasks t).live = true → (s.tasks t).xfer = k → (s.tasks t).cancelReq = true ∧ t ∈ x'.waitFor)
+    (hqs : (s.xs k).quiet = true → x'.removed = true ∨ x'.st = .aborted ∨ x'.st = .paused ∨
+      (x'.st = .failed ∧ x'.retry = false)) :
     Inv { s with xs := upd s.xs k x' } := by
   constructor
   · exact h.fresh
@@ -549,95 +537,301 @@ theorem inv_reset {s : TS} (h : Inv s) (k : Nat) (x' : XT) (h1 : x'.rqSlot = (s.
       cases hk : (s.tasks t).kind <;> simp only [XT.slotOf, hk, h1, h2] at this ⊢ <;> exact this
     · rw [upd_other _ _ e]; exact h.single t hl
   · intro j hj t hl hxf
-    show t ∈ (upd s.xs k x' j).waitFor
+    show t ∈ (upd s.xs k x' j).waitFor ∨ LateShape (s.tasks t)
+    change (upd s.xs k x' j).locked ≠ none at hj
+    by_cases e : j = k
+    · subst e; rw [upd_same]; exact Or.inl (hall t hl hxf).2
+    · rw [upd_other _ _ e] at hj ⊢; exact h.waits j hj t hl hxf
+  · intro j hq t hl hxf
+    change (upd s.xs k x' j).quiet = true at hq
+    by_cases e : j = k
+    · subst e; exact Or.inl (hall t hl hxf).1
+    · rw [upd_other _ _ e] at hq; exact h.quietInert j hq t hl hxf
+  · intro j hq
+    change (upd s.xs k x' j).quiet = true at hq
+    show (upd s.xs k x' j).removed = true ∨ (upd s.xs k x' j).st = .aborted ∨ (upd s.xs k x' j).st = .paused ∨
+      ((upd s.xs k x' j).st = .failed ∧ (upd s.xs k x' j).retry = false)
+    by_cases e : j = k
+    · subst e; rw [upd_same] at hq ⊢; rw [h3] at hq; exact hqs hq
+    · rw [upd_other _ _ e] at hq ⊢; exact h.quietSt j hq
+  · intro j hr t hl hxf
+    by_cases e : j = k
+    · subst e; exact (hall t hl hxf).1
+    · change (upd s.xs k x' j).removed = true at hr
+      rw [upd_other _ _ e] at hr; exact h.removedCancelled j hr t hl hxf
+
+/-- after `cancelSlots k` every live task of `k` is cancelled and among the tasks collected from the slots -/
+theorem cancelSlots_all {s : TS} (h : Inv s) (k : Nat) (t : Nat) (hl : ((s.cancelSlots k).tasks t).live = true)
+    (hx : ((s.cancelSlots k).tasks t).xfer = k) :
+    ((s.cancelSlots k).tasks t).cancelReq = true ∧ t ∈ liveIn s (s.xs k).rqSlot ++ liveIn s (s.xs k).ttSlot := by
+  obtain ⟨a, b, _, _, _, f⟩ := cancelSlots_task s k t
+  rw [a] at hl
+  rw [b] at hx
+  have hm := mem_slots h hl hx
+  exact ⟨f hm, hm⟩
+
+theorem inv_call {s : TS} (h : Inv s) (k : Nat) (c : CallKind) : Inv (step s (.call k c)) := by
+  simp only [step]
+  split
+  · rename_i hc
+    obtain ⟨_, hr, _, _⟩ := hc
+    refine inv_lockUpdate (inv_cancelSlots h k) k _ rfl rfl rfl (cancelSlots_all h k) ?_
+    intro hq
+    change (s.xs k).quiet = true at hq
+    rcases h.quietSt k hq with h1 | h1 | h1 | h1
+    · rw [hr] at h1; cases h1
+    · exact Or.inr (Or.inl h1)
+    · exact Or.inr (Or.inr (Or.inl h1))
+    · exact Or.inr (Or.inr (Or.inr h1))
+  · exact h
+
+theorem inv_removeMid {s : TS} (h : Inv s) (k : Nat) : Inv (step s (.removeMid k)) := by
+  simp only [step]
+  split
+  · exact inv_lockUpdate (inv_cancelSlots h k) k _ rfl rfl rfl (cancelSlots_all h k) (fun _ => Or.inl rfl)
+  · exact h
+
+theorem unblock_task (s : TS) (o : Option Nat) (t : Nat) :
+    (s.unblock o t).live = (s.tasks t).live ∧ (s.unblock o t).xfer = (s.tasks t).xfer ∧
+      (s.unblock o t).kind = (s.tasks t).kind ∧ (s.unblock o t).cancelReq = (s.tasks t).cancelReq ∧
+      (LateShape (s.tasks t) → LateShape (s.unblock o t)) := by
+  unfold TS.unblock
+  cases o with
+  | none => exact ⟨rfl, rfl, rfl, rfl, id⟩
+  | some u =>
+    simp only
+    split
+    · rename_i hb
+      by_cases e : t = u
+      · subst e
+        rw [upd_same]
+        refine ⟨?_, rfl, rfl, rfl, fun hls => ⟨hls.1, Or.inr (Or.inr rfl)⟩⟩
+        simp [Task.live, hb]
+      · rw [upd_other _ _ e]; exact ⟨rfl, rfl, rfl, rfl, id⟩
+    · exact ⟨rfl, rfl, rfl, rfl, id⟩
+
+theorem inv_unblock {s : TS} (h : Inv s) (o : Option Nat) : Inv { s with tasks := s.unblock o } := by
+  refine Inv.frame h rfl rfl ?_ (fun _ => ⟨rfl, rfl, rfl, rfl, rfl, rfl⟩) (fun _ _ => ⟨rfl, rfl⟩)
+  intro t hl
+  obtain ⟨a, b, c, d, e⟩ := unblock_task s o t
+  change (s.unblock o t).live = true at hl
+  rw [a] at hl
+  exact ⟨hl, b, c, fun hc => by show (s.unblock o t).cancelReq = true; rw [d]; exact hc, fun _ => e⟩
+
+/-- the return of a call: lock and wait list cleared, the transfer becomes quiet -/
+theorem inv_returnUpdate {s : TS} (h : Inv s) (k : Nat) (x' : XT)
+    (h1 : x'.rqSlot = (s.xs k).rqSlot) (h2 : x'.ttSlot = (s.xs k).ttSlot) (h3 : x'.locked = none)
+    (h4 : x'.removed = (s.xs k).removed)
+    (hall : ∀ t, (s.tasks t).live = true → (s.tasks t).xfer = k → Inert (s.tasks t))
+    (hqs : x'.removed = true ∨ x'.st = .aborted ∨ x'.st = .paused ∨ (x'.st = .failed ∧ x'.retry = false)) :
+    Inv { s with xs := upd s.xs k x' } := by
+  constructor
+  · exact h.fresh
+  · exact h.bound
+  · intro t hl
+    show (upd s.xs k x' (s.tasks t).xfer).slotOf (s.tasks t).kind = some t
+    by_cases e : (s.tasks t).xfer = k
+    · rw [e, upd_same]
+      have := h.single t hl
+      rw [e] at this
+      cases hk : (s.tasks t).kind <;> simp only [XT.slotOf, hk, h1, h2] at this ⊢ <;> exact this
+    · rw [upd_other _ _ e]; exact h.single t hl
+  · intro j hj t hl hxf
+    show t ∈ (upd s.xs k x' j).waitFor ∨ LateShape (s.tasks t)
     change (upd s.xs k x' j).locked ≠ none at hj
     by_cases e : j = k
     · subst e; rw [upd_same] at hj; exact absurd h3 hj
     · rw [upd_other _ _ e] at hj ⊢; exact h.waits j hj t hl hxf
-  · intro j hq t hl
+  · intro j hq t hl hxf
     change (upd s.xs k x' j).quiet = true at hq
     by_cases e : j = k
-    · subst e; rw [upd_same, h4] at hq; cases hq
-    · rw [upd_other _ _ e] at hq; exact h.quietDead j hq t hl
+    · subst e; exact hall t hl hxf
+    · rw [upd_other _ _ e] at hq; exact h.quietInert j hq t hl hxf
   · intro j hq
     change (upd s.xs k x' j).quiet = true at hq
-    show (upd s.xs k x' j).removed = true ∨ (upd s.xs k x' j).st = .aborted ∨ (upd s.xs k x' j).st = .paused ∨ (upd s.xs k x' j).st = .failed
+    show (upd s.xs k x' j).removed = true ∨ (upd s.xs k x' j).st = .aborted ∨ (upd s.xs k x' j).st = .paused ∨
+      ((upd s.xs k x' j).st = .failed ∧ (upd s.xs k x' j).retry = false)
     by_cases e : j = k
-    · subst e; rw [upd_same, h4] at hq; cases hq
+    · subst e; rw [upd_same]; exact hqs
     · rw [upd_other _ _ e] at hq ⊢; exact h.quietSt j hq
+  · intro j hr t hl hxf
+    change (upd s.xs k x' j).removed = true at hr
+    by_cases e : j = k
+    · subst e; rw [upd_same, h4] at hr; exact h.removedCancelled j hr t hl hxf
+    · rw [upd_other _ _ e] at hr; exact h.removedCancelled j hr t hl hxf
 
-theorem inv_peerRequest {s : TS} (h : Inv s) (k : Nat) : Inv (step s (.peerRequest k)) := by
+theorem inv_callResume {s : TS} (h : Inv s) (k : Nat) : Inv (step s (.callResume k)) := by
   simp only [step]
   split
-  · rename_i hc
-    obtain ⟨hk, _, hr, hl, hs, hf⟩ := hc
+  · rename_i c hc
     split
-    · -- FAILED: re-queued by the peer first
-      have h1 := inv_reset h k { s.xs k with st := .queued, rq := true, quiet := false } rfl rfl hl rfl
-      refine inv_spawn h1 hk ?_ ?_ ?_
-      · show TS.slotFree _ ((upd s.xs k _ k).slotOf .initDownload) = true
-        rw [upd_same]
-        simpa [XT.slotOf, TS.slotFree] using hf
-      · show (upd s.xs k _ k).locked = none
-        rw [upd_same]; exact hl
-      · show (upd s.xs k _ k).quiet = false
-        rw [upd_same]
-    · rename_i hnf
-      have hs' : (s.xs k).st = .queued ∨ (s.xs k).st = .incomplete := by
-        rcases hs with h1 | h1 | h1
-        · exact Or.inl h1
-        · exact Or.inr h1
-        · exact absurd h1 hnf
-      exact inv_spawn h hk (by simpa [XT.slotOf] using hf) hl (not_quiet_of_spawnable h hr hs')
+    · rename_i hw
+      obtain ⟨hw, hrm⟩ := hw
+      have hu := inv_unblock h (s.xs k).ttSlot
+      refine inv_returnUpdate hu k _ rfl rfl rfl rfl ?_ ?_
+      · intro t hl hxf
+        obtain ⟨a, b, _, d, e⟩ := unblock_task s (s.xs k).ttSlot t
+        change (s.unblock (s.xs k).ttSlot t).live = true at hl
+        change (s.unblock (s.xs k).ttSlot t).xfer = k at hxf
+        show Inert (s.unblock (s.xs k).ttSlot t)
+        rw [a] at hl
+        rw [b] at hxf
+        rcases h.waits k (by rw [hc]; simp) t hl hxf with hm | hm
+        · have := List.all_eq_true.mp hw t hm
+          simp [hl] at this
+        · exact Or.inr (e hm)
+      · show (s.xs k).removed = true ∨ _
+        cases hr : (s.xs k).removed
+        · simp only [Bool.false_eq_true, if_false, false_or]
+          by_cases hp : c = .pause
+          · exact Or.inr (Or.inl (by simp [hp]))
+          · exact Or.inl (by simp [hp])
+        · exact Or.inl rfl
+    · exact h
+  · exact h
+
+/-- transfer `k` gets new state / flags; slots, lock, wait list and list membership stay; it may stop being quiet -/
+theorem inv_xfields {s : TS} (h : Inv s) (k : Nat) (x' : XT) (h1 : x'.rqSlot = (s.xs k).rqSlot)
+    (h2 : x'.ttSlot = (s.xs k).ttSlot) (h3 : x'.locked = (s.xs k).locked) (h4 : x'.waitFor = (s.xs k).waitFor)
+    (h5 : x'.removed = (s.xs k).removed)
+    (hq : x'.quiet = true → (s.xs k).quiet = true ∧
+      (x'.removed = true ∨ x'.st = .aborted ∨ x'.st = .paused ∨ (x'.st = .failed ∧ x'.retry = false))) :
+    Inv { s with xs := upd s.xs k x' } := by
+  constructor
+  · exact h.fresh
+  · exact h.bound
+  · intro t hl
+    show (upd s.xs k x' (s.tasks t).xfer).slotOf (s.tasks t).kind = some t
+    by_cases e : (s.tasks t).xfer = k
+    · rw [e, upd_same]
+      have := h.single t hl
+      rw [e] at this
+      cases hk : (s.tasks t).kind <;> simp only [XT.slotOf, hk, h1, h2] at this ⊢ <;> exact this
+    · rw [upd_other _ _ e]; exact h.single t hl
+  · intro j hj t hl hxf
+    show t ∈ (upd s.xs k x' j).waitFor ∨ LateShape (s.tasks t)
+    change (upd s.xs k x' j).locked ≠ none at hj
+    by_cases e : j = k
+    · subst e; rw [upd_same] at hj ⊢; rw [h3] at hj; rw [h4]; exact h.waits j hj t hl hxf
+    · rw [upd_other _ _ e] at hj ⊢; exact h.waits j hj t hl hxf
+  · intro j hj t hl hxf
+    change (upd s.xs k x' j).quiet = true at hj
+    by_cases e : j = k
+    · subst e; rw [upd_same] at hj; exact h.quietInert j (hq hj).1 t hl hxf
+    · rw [upd_other _ _ e] at hj; exact h.quietInert j hj t hl hxf
+  · intro j hj
+    change (upd s.xs k x' j).quiet = true at hj
+    show (upd s.xs k x' j).removed = true ∨ (upd s.xs k x' j).st = .aborted ∨ (upd s.xs k x' j).st = .paused ∨
+      ((upd s.xs k x' j).st = .failed ∧ (upd s.xs k x' j).retry = false)
+    by_cases e : j = k
+    · subst e; rw [upd_same] at hj ⊢; exact (hq hj).2
+    · rw [upd_other _ _ e] at hj ⊢; exact h.quietSt j hj
+  · intro j hr t hl hxf
+    change (upd s.xs k x' j).removed = true at hr
+    by_cases e : j = k
+    · subst e; rw [upd_same, h5] at hr; exact h.removedCancelled j hr t hl hxf
+    · rw [upd_other _ _ e] at hr; exact h.removedCancelled j hr t hl hxf
+
+theorem inv_requeue {s : TS} (h : Inv s) (k : Nat) : Inv (step s (.requeue k)) := by
+  simp only [step]
+  split
+  · exact inv_xfields h k _ rfl rfl rfl rfl rfl (fun hq => by cases hq)
   · exact h
 
 theorem inv_peerFail {s : TS} (h : Inv s) (k : Nat) : Inv (step s (.peerFail k)) := by
   simp only [step]
   split
+  · exact inv_xfields h k _ rfl rfl rfl rfl rfl (fun hq => ⟨hq, Or.inr (Or.inr (Or.inr ⟨rfl, rfl⟩))⟩)
+  · exact h
+
+theorem inv_peerUploadFailed {s : TS} (h : Inv s) (k : Nat) : Inv (step s (.peerUploadFailed k)) := by
+  simp only [step]
+  split
+  · exact inv_xfields h k _ rfl rfl rfl rfl rfl (fun hq => ⟨hq, h.quietSt k hq⟩)
+  · exact h
+
+theorem inv_add {s : TS} (h : Inv s) (x : XT)
+    (hx : x.rqSlot = none ∧ x.ttSlot = none ∧ x.locked = none ∧ x.quiet = false ∧ x.removed = false) :
+    Inv { s with xs := upd s.xs s.nx x, nx := s.nx + 1 } := by
+  have hne : ∀ t, (s.tasks t).live = true → (s.tasks t).xfer ≠ s.nx := fun t hl => Nat.ne_of_lt (h.bound t hl)
+  constructor
+  · exact h.fresh
+  · intro t hl; exact Nat.lt_succ_of_lt (h.bound t hl)
+  · intro t hl
+    show (upd s.xs s.nx x (s.tasks t).xfer).slotOf (s.tasks t).kind = some t
+    rw [upd_other _ _ (hne t hl)]; exact h.single t hl
+  · intro j hj t hl hxf
+    show t ∈ (upd s.xs s.nx x j).waitFor ∨ LateShape (s.tasks t)
+    change (upd s.xs s.nx x j).locked ≠ none at hj
+    by_cases e : j = s.nx
+    · subst e; rw [upd_same] at hj; exact absurd hx.2.2.1 hj
+    · rw [upd_other _ _ e] at hj ⊢; exact h.waits j hj t hl hxf
+  · intro j hq t hl hxf
+    change (upd s.xs s.nx x j).quiet = true at hq
+    by_cases e : j = s.nx
+    · subst e; exact absurd hxf (hne t hl)
+    · rw [upd_other _ _ e] at hq; exact h.quietInert j hq t hl hxf
+  · intro j hq
+    change (upd s.xs s.nx x j).quiet = true at hq
+    show (upd s.xs s.nx x j).removed = true ∨ (upd s.xs s.nx x j).st = .aborted ∨ (upd s.xs s.nx x j).st = .paused ∨
+      ((upd s.xs s.nx x j).st = .failed ∧ (upd s.xs s.nx x j).retry = false)
+    by_cases e : j = s.nx
+    · subst e; rw [upd_same, hx.2.2.2.1] at hq; cases hq
+    · rw [upd_other _ _ e] at hq ⊢; exact h.quietSt j hq
+  · intro j hr t hl hxf
+    change (upd s.xs s.nx x j).removed = true at hr
+    by_cases e : j = s.nx
+    · subst e; exact absurd hxf (hne t hl)
+    · rw [upd_other _ _ e] at hr; exact h.removedCancelled j hr t hl hxf
+
+theorem inv_peerRequest {s : TS} (h : Inv s) (k : Nat) : Inv (step s (.peerRequest k)) := by
+  simp only [step]
+  split
   · rename_i hc
-    constructor
-    · exact h.fresh
-    · exact h.bound
-    · intro t hl
-      show (upd s.xs k _ (s.tasks t).xfer).slotOf (s.tasks t).kind = some t
-      by_cases e : (s.tasks t).xfer = k
-      · rw [e, upd_same]
-        have := h.single t hl
-        rw [e] at this
-        cases hk : (s.tasks t).kind <;> simp only [XT.slotOf, hk] at this ⊢ <;> exact this
-      · rw [upd_other _ _ e]; exact h.single t hl
-    · intro j hj t hl hxf
-      show t ∈ (upd s.xs k _ j).waitFor
-      change (upd s.xs k _ j).locked ≠ none at hj
-      by_cases e : j = k
-      · subst e; rw [upd_same] at hj; exact absurd hc.2.2.2.1 hj
-      · rw [upd_other _ _ e] at hj ⊢; exact h.waits j hj t hl hxf
-    · intro j hq t hl
-      change (upd s.xs k _ j).quiet = true at hq
-      by_cases e : j = k
-      · subst e; rw [upd_same] at hq; exact h.quietDead _ hq t hl
-      · rw [upd_other _ _ e] at hq; exact h.quietDead j hq t hl
-    · intro j hq
-      change (upd s.xs k _ j).quiet = true at hq
-      show (upd s.xs k _ j).removed = true ∨ (upd s.xs k _ j).st = .aborted ∨ (upd s.xs k _ j).st = .paused ∨ (upd s.xs k _ j).st = .failed
-      by_cases e : j = k
-      · subst e; rw [upd_same]; exact Or.inr (Or.inr (Or.inr rfl))
-      · rw [upd_other _ _ e] at hq ⊢; exact h.quietSt j hq
+    obtain ⟨hk, _, hr, hf⟩ := hc
+    split
+    · rename_i hl
+      split
+      · rename_i hs
+        exact inv_spawn h hk (by simpa [XT.slotOf] using hf) (Or.inl hl)
+          (not_quiet_of_spawnable h hr (hs.elim Or.inl (fun e => Or.inr (Or.inl e)))) hr
+      · split
+        · -- FAILED: re-queued by the peer first
+          have h1 := inv_xfields h k { s.xs k with st := .queued, rq := true, quiet := false } rfl rfl rfl rfl rfl
+            (fun hq => by cases hq)
+          refine inv_spawn h1 hk ?_ (Or.inr rfl) ?_ ?_
+          · show TS.slotFree _ ((upd s.xs k _ k).slotOf .initDownload) = true
+            rw [upd_same]
+            simpa [XT.slotOf, TS.slotFree] using hf
+          · show (upd s.xs k _ k).quiet = false
+            rw [upd_same]
+          · show (upd s.xs k _ k).removed = false
+            rw [upd_same]; exact hr
+        · exact h
+    · -- a call holds the lock
+      split
+      · rename_i hs
+        exact inv_spawn h hk (by simpa [XT.slotOf] using hf) (Or.inr rfl)
+          (not_quiet_of_spawnable h hr (hs.elim Or.inl (fun e => Or.inr (Or.inl e)))) hr
+      · exact h
   · exact h
 
 theorem inv_step {s : TS} (h : Inv s) (op : Op) : Inv (step s op) := by
   cases op with
-  | addDownload => exact inv_add h _ ⟨rfl, rfl, rfl, rfl⟩
-  | addUpload => exact inv_add h _ ⟨rfl, rfl, rfl, rfl⟩
+  | addDownload => exact inv_add h _ ⟨rfl, rfl, rfl, rfl, rfl⟩
+  | addUpload => exact inv_add h _ ⟨rfl, rfl, rfl, rfl, rfl⟩
+  | addFailed => exact inv_add h _ ⟨rfl, rfl, rfl, rfl, rfl⟩
   | cycle ks => exact inv_cycle h ks
   | peerRequest k => exact inv_peerRequest h k
   | taskStart t => exact inv_taskStart h t
   | taskEnd t o => exact inv_taskEnd h t o
   | doneCallback t => exact inv_doneCallback h t
   | call k c => exact inv_call h k c
+  | removeMid k => exact inv_removeMid h k
   | callResume k => exact inv_callResume h k
   | requeue k => exact inv_requeue h k
   | peerFail k => exact inv_peerFail h k
+  | peerUploadFailed k => exact inv_peerUploadFailed h k
 
 theorem inv_foldl {s : TS} (h : Inv s) (ops : List Op) : Inv (ops.foldl step s) := by
   induction ops generalizing s with
@@ -672,7 +866,7 @@ theorem trySpawn_quiet {s : TS} (h : Inv s) {k : Nat} (hq : (s.xs k).quiet = tru
           · rw [hc.2.1] at h1; cases h1
           · simp [h1] at hd
           · simp [h1] at hd
-          · simp [h1] at hd
+          · simp [h1.1, h1.2] at hd
       · cases hsp
     · exact ⟨upd_other _ _ (fun e' => e e'.symm), rfl⟩
   · exact ⟨rfl, rfl⟩
@@ -691,7 +885,10 @@ theorem cycle_quiet {s : TS} (h : Inv s) {k : Nat} (hq : (s.xs k).quiet = true) 
 /-- one step of anything that is not a user / peer action on `k` leaves a quiet transfer alone -/
 theorem quiet_step {s : TS} (h : Inv s) {k : Nat} (hk : k < s.nx) (hq : (s.xs k).quiet = true) (op : Op)
     (hn : op.addresses k = false) : obs ((step s op).xs k) = obs (s.xs k) ∧ k < (step s op).nx := by
-  have hdead := h.quietDead k hq
+  have hne : ∀ {j : Nat}, (j == k) = false → k ≠ j := by
+    intro j hj e
+    subst e
+    simp at hj
   cases op with
   | addDownload =>
     simp only [step]
@@ -701,24 +898,32 @@ theorem quiet_step {s : TS} (h : Inv s) {k : Nat} (hk : k < s.nx) (hq : (s.xs k)
     simp only [step]
     rw [upd_other _ _ (Nat.ne_of_lt hk)]
     exact ⟨rfl, Nat.lt_succ_of_lt hk⟩
+  | addFailed =>
+    simp only [step]
+    rw [upd_other _ _ (Nat.ne_of_lt hk)]
+    exact ⟨rfl, Nat.lt_succ_of_lt hk⟩
   | cycle ks =>
     have := cycle_quiet h hq ks
     simp only [step]
     rw [this.1, this.2]
     exact ⟨rfl, hk⟩
   | peerRequest j =>
-    have e : k ≠ j := by
-      have : ¬ j = k := by simpa [Op.addresses] using hn
-      exact fun h => this h.symm
+    have e : k ≠ j := hne (by simpa [Op.addresses] using hn)
+    have h1 : ∀ (s1 : TS), (s1.spawn j .initDownload).xs k = s1.xs k := fun s1 => upd_other _ _ e
     simp only [step]
     split
     · split
-      · refine ⟨?_, hk⟩
-        have h1 : ∀ (s1 : TS), (s1.spawn j .initDownload).xs k = s1.xs k := fun s1 => upd_other _ _ e
-        rw [h1]
-        show obs (upd s.xs j _ k) = obs (s.xs k)
-        rw [upd_other _ _ e]
-      · exact ⟨by rw [show (s.spawn j .initDownload).xs k = s.xs k from upd_other _ _ e], hk⟩
+      · split
+        · exact ⟨by rw [h1], hk⟩
+        · split
+          · refine ⟨?_, hk⟩
+            rw [h1]
+            show obs (upd s.xs j _ k) = obs (s.xs k)
+            rw [upd_other _ _ e]
+          · exact ⟨rfl, hk⟩
+      · split
+        · exact ⟨by rw [h1], hk⟩
+        · exact ⟨rfl, hk⟩
     · exact ⟨rfl, hk⟩
   | taskStart t =>
     simp only [step]
@@ -727,18 +932,48 @@ theorem quiet_step {s : TS} (h : Inv s) {k : Nat} (hk : k < s.nx) (hq : (s.xs k)
       have hl : (s.tasks t).live = true := live_phase.mpr (Or.inl hp)
       split
       · exact ⟨rfl, hk⟩
-      · exact ⟨by simp only []; rw [upd_other _ _ (fun e => hdead t hl e.symm)], hk⟩
+      · rename_i hnc
+        have hnc' : (s.tasks t).cancelReq = false := by simpa using hnc
+        by_cases e : k = (s.tasks t).xfer
+        · -- a task of the quiet transfer that was not cancelled: a late initialisation; it blocks or is refused
+          have hq' : (s.xs (s.tasks t).xfer).quiet = true := e ▸ hq
+          have hkd := (late_of_quiet h hl hq' hnc').1
+          split
+          · rename_i hkd'; rw [hkd] at hkd'; cases hkd'
+          · rename_i hkd'; rw [hkd] at hkd'; cases hkd'
+          · split
+            · exact ⟨rfl, hk⟩
+            · split
+              · rename_i hs; exact (quiet_not_startable h hl hq' hnc' hs).elim
+              · exact ⟨rfl, hk⟩
+        · split
+          · exact ⟨by simp only []; rw [upd_other _ _ e], hk⟩
+          · exact ⟨by simp only []; rw [upd_other _ _ e], hk⟩
+          · split
+            · exact ⟨rfl, hk⟩
+            · split
+              · exact ⟨by simp only []; rw [upd_other _ _ e], hk⟩
+              · exact ⟨rfl, hk⟩
     · exact ⟨rfl, hk⟩
   | taskEnd t o =>
     simp only [step]
     split
     · rename_i hp
-      have hl : (s.tasks t).live = true := live_phase.mpr (Or.inr hp)
-      have hne : k ≠ (s.tasks t).xfer := fun e => hdead t hl e.symm
+      have hl : (s.tasks t).live = true := live_phase.mpr (Or.inr (Or.inl hp))
       split
       · exact ⟨rfl, hk⟩
-      · split <;> exact ⟨by simp only []; rw [upd_other _ _ hne], hk⟩
-    · exact ⟨rfl, hk⟩
+      · rename_i hnc
+        have hnc' : (s.tasks t).cancelReq = false := by simpa using hnc
+        have hne' : k ≠ (s.tasks t).xfer := by
+          intro e
+          have hq' : (s.xs (s.tasks t).xfer).quiet = true := e ▸ hq
+          rcases (late_of_quiet h hl hq' hnc').2 with h1 | h1 | h1 <;> rw [hp] at h1 <;> cases h1
+        split <;> exact ⟨by simp only []; rw [upd_other _ _ hne'], hk⟩
+    · split
+      · exact ⟨rfl, hk⟩
+      · split
+        · exact ⟨rfl, hk⟩
+        · exact ⟨rfl, hk⟩
   | doneCallback t =>
     simp only [step]
     split
@@ -751,17 +986,19 @@ theorem quiet_step {s : TS} (h : Inv s) {k : Nat} (hk : k < s.nx) (hq : (s.xs k)
       · rw [upd_other _ _ e]
     · exact ⟨rfl, hk⟩
   | call j c =>
-    have e : k ≠ j := by
-      have : ¬ j = k := by simpa [Op.addresses] using hn
-      exact fun h => this h.symm
+    have e : k ≠ j := hne (by simpa [Op.addresses] using hn)
+    simp only [step]
+    split
+    · exact ⟨by simp only []; rw [upd_other _ _ e]; rfl, hk⟩
+    · exact ⟨rfl, hk⟩
+  | removeMid j =>
+    have e : k ≠ j := hne (by simpa [Op.addresses] using hn)
     simp only [step]
     split
     · exact ⟨by simp only []; rw [upd_other _ _ e]; rfl, hk⟩
     · exact ⟨rfl, hk⟩
   | callResume j =>
-    have e : k ≠ j := by
-      have : ¬ j = k := by simpa [Op.addresses] using hn
-      exact fun h => this h.symm
+    have e : k ≠ j := hne (by simpa [Op.addresses] using hn)
     simp only [step]
     split
     · split
@@ -769,17 +1006,19 @@ theorem quiet_step {s : TS} (h : Inv s) {k : Nat} (hk : k < s.nx) (hq : (s.xs k)
       · exact ⟨rfl, hk⟩
     · exact ⟨rfl, hk⟩
   | requeue j =>
-    have e : k ≠ j := by
-      have : ¬ j = k := by simpa [Op.addresses] using hn
-      exact fun h => this h.symm
+    have e : k ≠ j := hne (by simpa [Op.addresses] using hn)
     simp only [step]
     split
     · exact ⟨by simp only []; rw [upd_other _ _ e], hk⟩
     · exact ⟨rfl, hk⟩
   | peerFail j =>
-    have e : k ≠ j := by
-      have : ¬ j = k := by simpa [Op.addresses] using hn
-      exact fun h => this h.symm
+    have e : k ≠ j := hne (by simpa [Op.addresses] using hn)
+    simp only [step]
+    split
+    · exact ⟨by simp only []; rw [upd_other _ _ e], hk⟩
+    · exact ⟨rfl, hk⟩
+  | peerUploadFailed j =>
+    have e : k ≠ j := hne (by simpa [Op.addresses] using hn)
     simp only [step]
     split
     · exact ⟨by simp only []; rw [upd_other _ _ e], hk⟩
@@ -788,9 +1027,10 @@ theorem quiet_step {s : TS} (h : Inv s) {k : Nat} (hk : k < s.nx) (hq : (s.xs k)
 theorem quiet_foldl {s : TS} (h : Inv s) {k : Nat} (hk : k < s.nx) (hq : (s.xs k).quiet = true) (ops' : List Op)
     (hn : ∀ op ∈ ops', op.addresses k = false) :
     obs ((ops'.foldl step s).xs k) = obs (s.xs k) ∧
-      ∀ t, ((ops'.foldl step s).tasks t).live = true → ((ops'.foldl step s).tasks t).xfer ≠ k := by
+      ∀ t, ((ops'.foldl step s).tasks t).live = true → ((ops'.foldl step s).tasks t).xfer = k →
+        Inert ((ops'.foldl step s).tasks t) := by
   induction ops' generalizing s with
-  | nil => exact ⟨rfl, h.quietDead k hq⟩
+  | nil => exact ⟨rfl, h.quietInert k hq⟩
   | cons op ops ih =>
     have h1 := quiet_step h hk hq op (hn op List.mem_cons_self)
     have hq' : ((step s op).xs k).quiet = true := by
